@@ -8,7 +8,7 @@
 EXTENDS Integers, Sequences, TLC, Json, IOUtils
 Trace == ndJsonDeserialize(IOEnv.IN_FILE)
 Laws == {"PM(PM(x,a),b)=PM(x,a+b)", "MZM-power-2Vpi-periodic", "MZM-noise-modulated-like-signal", "PM-noise-rotated-like-signal",
-         "drive-kinds-agree-MZM", "drive-kinds-agree-PM", "PM-phase-is-pi*u/Vpi", "MZM-transfer-at-lattice-power", "LASER-|E|^2=P", "PM-total-power-unchanged"}
+         "drive-kinds-agree-MZM", "drive-kinds-agree-PM", "PM-phase-is-pi*u/Vpi", "MZM-transfer-at-lattice-power", "LASER-|E|^2=P", "PM-total-power-unchanged", "MZM(BW)=BPF(MZM)"}
 Bounds == {"MZM-passive-per-sample", "MZM-unselected-polarisation-extinguished"}
 Clauses(e) ==
   CASE e.kind = "law" -> IF e.name \notin Laws THEN {"unknown-law"} ELSE IF e.ppt > 1000000 THEN {e.name} ELSE {}      \* 1e-6 relative
